@@ -29,8 +29,9 @@ func DrawRealModule(r *Rng, minPkgs int) (*ModuleSpec, []string) {
 	}
 	for pi := 0; pi < nPkgs; pi++ {
 		dir := dirNames[dirs[pi]]
-		p := &PkgSpec{Dir: dir, Name: dir, Anchor: fmt.Sprintf("Item%d", pi)}
-		p.DocText = []string{"Package " + dir + " is generated input."}
+		name := dir[strings.LastIndex(dir, "/")+1:]
+		p := &PkgSpec{Dir: dir, Name: name, Anchor: fmt.Sprintf("Item%d", pi)}
+		p.DocText = []string{"Package " + name + " is generated input."}
 		for _, g := range used {
 			if r.P(0.8) {
 				p.DocTags = append(p.DocTags, Tag{Marker: "+", Key: "gengo:" + g})
